@@ -6,7 +6,7 @@
    this is libm rounding the real-number model cannot exhibit. *)
 From Coq Require Import Arith List Reals QArith Qcanon.
 From GPV Require Import Base.LinAlg Base.Exec Base.Expr Models.C17_constraints
-  Proofs.C17_constraints Proofs.C17_extra Proofs.C17_lkj Proofs.C17_multi.
+  Proofs.C17_constraints Proofs.C17_extra Proofs.C17_lkj Proofs.C17_multi Proofs.C17_bounds.
 Import ListNotations.
 
 (* range: for EVERY real raw value the transformed value is strictly inside the bounds
@@ -265,3 +265,66 @@ Example ex_c17_interval_history :
             [Set_ (qc 3 2); Step (EConst (qc (-7) 1)); Set_ (qc 3 1); InitRaw (EConst (qc 40 1))]) = 4%nat.
 Proof. exact ex_interval_history. Qed.
 Print Assumptions ex_c17_interval_history.
+
+(* ---- histories in which the BOUNDS are replaced (load_state_dict of the bound buffers, register_constraint,
+   casts / copies).  After ANY such history every intermediate and the final constrained read lies strictly
+   inside the bounds IN FORCE at that moment *)
+Theorem c17_bounds_replaced_history_in_bounds :
+  forall (s : bstate) (ops : list bop), wf (fst s) -> Forall bop_wf ops ->
+    Forall (fun s' => in_bounds (fst s') (breadR s')) (btrace s ops).
+Proof. exact bhistory_in_bounds. Qed.
+Print Assumptions c17_bounds_replaced_history_in_bounds.
+
+(* replacing the bounds keeps the raw value: the read is the NEW transform of the old raw value *)
+Theorem c17_replace_bounds_reads :
+  forall (s : bstate) (c' : cons),
+    breadR (bstep s (BReplace c')) = transform_R c' (den (fst (snd s))) /\
+    fst (bstep s (BReplace c')) = c' /\ snd (bstep s (BReplace c')) = snd s.
+Proof. exact breplace_reads. Qed.
+Print Assumptions c17_replace_bounds_reads.
+
+(* a value saved under bounds c' (state dict: bounds c', raw = inverse of v under c') is read back as v
+   by whatever module loads it, whatever bounds that module was built with *)
+Theorem c17_loaded_value_reads_back :
+  forall (s : bstate) (c' : cons) (v : Qc), wf c' -> interior_q c' v = true ->
+    breadR (bstep s (BLoad c' (inverse_e c' (EConst v)))) = q v.
+Proof. exact bload_saved_value_reads_back. Qed.
+Print Assumptions c17_loaded_value_reads_back.
+
+(* after a replacement assignments are judged by the NEW bounds: interior values read back, values outside
+   the new bounds are rejected and leave the raw value - whatever the earlier bounds were *)
+Theorem c17_set_after_replace_bounds :
+  forall (s : bstate) (c' : cons) (v : Qc), wf c' ->
+  (interior_q c' v = true ->
+     breadR (bstep (bstep s (BReplace c')) (BOp (Set_ v))) = q v /\
+     snd (snd (bstep (bstep s (BReplace c')) (BOp (Set_ v)))) = snd (snd s)) /\
+  (interior_q c' v = false ->
+     fst (snd (bstep (bstep s (BReplace c')) (BOp (Set_ v)))) = fst (snd s) /\
+     snd (snd (bstep (bstep s (BReplace c')) (BOp (Set_ v)))) = S (snd (snd s))).
+Proof. exact bset_after_replace. Qed.
+Print Assumptions c17_set_after_replace_bounds.
+
+(* optimiser steps after a replacement: the read is the NEW transform of the moved raw value *)
+Theorem c17_step_after_replace_bounds :
+  forall (s : bstate) (c' : cons) (d : expr),
+    breadR (bstep (bstep s (BReplace c')) (BOp (Step d))) = transform_R c' (den (fst (snd s)) + den d)%R.
+Proof. exact bstep_after_replace. Qed.
+Print Assumptions c17_step_after_replace_bounds.
+
+(* why nothing derived from earlier bounds may survive: a sigmoid transform that keeps an earlier WIDTH w0
+   larger than the new one maps some raw value outside the new interval *)
+Theorem c17_stale_width_refuted :
+  forall (l u w0 : Qc), (q l < q u)%R -> (q u - q l < q w0)%R ->
+    exists x : R, ~ in_bounds (CInterval l u) (sigmoid x * q w0 + q l)%R.
+Proof. exact stale_width_leaves_bounds. Qed.
+Print Assumptions c17_stale_width_refuted.
+
+Example ex_c17_bounds_replaced_history :
+  let c0 := CInterval (qc 1 1000) (qc 4 1) in
+  let c1 := CInterval (qc 1 1000) (qc 1 2) in
+  wf c0 /\ Forall bop_wf [BLoad c1 (inverse_e c1 (EConst (qc 3 10))); BOp (Set_ (qc 4 5)); BOp (Step (EConst (qc 5 1)));
+                         BReplace (CGreater (qc 2 1)); BOp (Set_ (qc 3 1))] /\
+  interior_q c1 (qc 3 10) = true /\ interior_q c0 (qc 4 5) = true /\ interior_q c1 (qc 4 5) = false /\
+  (q (qc 1 2) - q (qc 1 1000) < q (qc 3999 1000))%R.
+Proof. exact ex_bhistory. Qed.
+Print Assumptions ex_c17_bounds_replaced_history.
